@@ -111,6 +111,13 @@ partial def asElem (j : Json) : P FP.Elem :=
       let h ← asInt j
       return .leaf h
 
+/-- the same element as far as Python's `hash()` can tell: the same shape and kinds, equal scalar hashes (so `-1` / `-2` or
+    `1` / `1.0` / `True` count as the same, `()` and `2`, `[1]` and `(1,)` do not) -/
+partial def sameElem : FP.Elem → FP.Elem → Bool
+  | .leaf a, .leaf b => a == b
+  | .seq k es, .seq k' es' => k == k' && es.length == es'.length && (es.zip es').all (fun p => sameElem p.1 p.2)
+  | _, _ => false
+
 /-- container-valued elements: the fingerprint is the rolling hash of the element hashes, a list / tuple / set element hashing
     as the rolling hash of its items (sets in sorted order); it does not depend on how an equal container was built, is stable
     across calls, and notices a change at any nesting depth -/
@@ -131,7 +138,8 @@ def container (c impl : Json) : P Json := do
     return verdict false s!"a vector with equal contents whose containers were built in another order has fingerprint {twin}, this one {vb}"
   if rebuilt != va then
     return verdict false s!"fingerprint {va} after the write differs from a freshly built equal vector ({rebuilt})"
-  if es.map FP.Elem.hash != es'.map FP.Elem.hash && va == vb then
+  let same := es.length == es'.length && (es.zip es').all (fun p => sameElem p.1 p.2)
+  if !same && va == vb then
     return verdict false s!"the contents of a container-valued element changed but the fingerprint stayed {vb}" (toJson (mB == mA))
   return verdict true ""
 
